@@ -11,8 +11,8 @@ mkdir -p "$ROOT/.build/setup"
 cd "$ROOT/harness"
 cp "$REPO/go.sum" go.sum
 $GO build -o "$ROOT/.build/setup/vcheck" ./cmd/vcheck
-$GO build -tags verif -o "$ROOT/.build/setup/vworker" ./cmd/vworker || echo "note: vworker does not build (checks fall back to CLI-only monitors)"
-$GO build -race -tags verif -o "$ROOT/.build/setup/vworker-race" ./cmd/vworker || true
+$GO build -tags verif,verifhook -o "$ROOT/.build/setup/vworker" ./cmd/vworker || $GO build -tags verif -o "$ROOT/.build/setup/vworker" ./cmd/vworker || echo "note: vworker does not build (checks fall back to CLI-only monitors)"
+$GO build -race -tags verif,verifhook -o "$ROOT/.build/setup/vworker-race" ./cmd/vworker || true
 ( cd "$REPO" && $GO build -tags verif -o "$ROOT/.build/setup/crd" ./cmd && $GO build -race -tags verif -o "$ROOT/.build/setup/crd-race" ./cmd )
 rm -rf "$ROOT/.build/setup"
 echo "setup ok"
